@@ -105,8 +105,9 @@ def register(claim):
           "to the generated code. Behaviour is decided per run: generated libraries with instrumented bodies are wrapped with -c and -python (with and "
           "without -string), compiled with the generated code, and every wrapper is called next to the direct C++ call on twin objects — boundary "
           "values of every integer width, bool/char/float/double/enum, by-value/reference/pointer class arguments, C strings and std::string, virtual "
-          "dispatch through base-class wrappers on derived objects, repeated calls, data-member accessors.",
-          "Partial: 'wrapper = direct call' is decided by execution (no C++ semantics in Lean); operators, casts, namespaces and -true-names/-promiscuous are not in the generated libraries yet.",
+          "dispatch through base-class wrappers on derived objects, repeated calls, data-member accessors, operators and a typecast, nested / "
+          "template-typedef / namespace classes, up-/downcast wrappers of a class with two bases, -promiscuous.",
+          "Partial: 'wrapper = direct call' is decided by execution (no C++ semantics in Lean); -true-names (needs -fptrs) is not exercised.",
           "Lean 4 proof (converter table, arity expansion) + correspondence on generated code + differential execution (exploration)", "DESIGN.md §5 C01")
     claim("C02",
           "Lean 4 theorems over a model of the generated overload dispatch (switch on the argument count, then the first remap in emission order whose "
@@ -114,11 +115,12 @@ def register(claim):
           "call reaches a C++ function only within its arity range and with every argument accepted (c02_arity_gate); if no overload accepts, nothing runs "
           "(TypeError, c02_no_viable_typeerror); when exactly one overload accepts — sets whose members differ in some parameter category or in arity — that "
           "one runs, in every emission order (c02_dispatch_unique, c02_dispatch_order_independent); with several acceptable overloads the best one runs if "
-          "the emission order never puts a better match after a worse one (c02_first_viable_is_best). The model is tied to real modules: which overload ran "
+          "the emission order never puts a better match after a worse one (c02_first_viable_is_best), which an order sorted by get_type_sort rank vectors guarantees "
+          "(c02_rank_order_gives_hsorted); the keyword table re-extracted from the source contains every Python 3 keyword (c02_keywords_cover). The model is tied to real modules: which overload ran "
           "for every argument-category vector. Behaviour is decided per run: generated class libraries are built into extension modules and exercised by "
           "generated Python programs with independently computed expectations (names, defaults, keywords, values, TypeError/OverflowError, constness, "
           "base-class acceptance, live-object counts), plus a reference-counting scenario with assertion failures.",
-          "Partial: the generated C and the py_panda runtime are observed, not modelled; coercion constructors, MAKE_SEQ and nested classes are not generated yet.",
+          "Partial: the generated C and the py_panda runtime are observed, not modelled; coercion constructors are not generated.",
           "Lean 4 proof (overload dispatch) + differential correspondence on real modules + generated Python tests (exploration)", "DESIGN.md §5 C02")
     claim("C20",
           "Lean 4 theorems: guarded accessors return the neutral value off-range and the entry in range; every lookup answers from the current maps "
